@@ -10,7 +10,7 @@ flipped infinity sign, swapped begin/end, dropped negation ...):
 Writes /verif/evidence/mutation.json: per mutant the outcome, and the list of suite-surviving mutants that no
 check reports (candidates for equivalent mutants or blind spots; they are triaged by hand in DESIGN.md 8.4).
 
-usage: mutants.py [--jobs J] [--scale S] [--max N] [--only substring] [--stride K] [--recheck mutation.json [--sample N]]
+usage: mutants.py [--jobs J] [--scale S] [--max N] [--only substring] [--stride K] [--recheck mutation.json [--sample N] [--mapped N]]
 """
 import os
 import re
@@ -177,7 +177,16 @@ def main():
         # second pass over the suite-surviving mutants that no mapped check reported: run EVERY check on them
         want = set((r['file'], r['line'], r['op']) for r in json.load(open(recheck))['not_reported'])
         ms = [m for m in sites() if (m['file'], m['line'], m['op']) in want]
-        os.environ['MUT_ALL_CHECKS'] = '1'
+        mapped = int(arg('--mapped', '0'))
+        if mapped:
+            # cheaper second pass: only the first N mapped checks of each file (dense online predicates also get C06)
+            for m in ms:
+                ck = list(m['checks'])
+                if 'predicate_operation' in m['file'] and 'C06' not in ck:
+                    ck.insert(1, 'C06')
+                m['checks'] = ck[:mapped]
+        else:
+            os.environ['MUT_ALL_CHECKS'] = '1'
         os.environ['MUT_SKIP_SUITE'] = '1'
         sample = int(arg('--sample', '0'))
         if sample and sample < len(ms):
